@@ -128,6 +128,17 @@ CHECKS = {
             "update, consistency, linearizability for small histories); merge independent of worker list order.",
             "Trusted: harness/models/lru.py written from docstrings/docs; undocumented corners (age==ttl, negative costs) are not asserted.",
             "DESIGN.md §3 C15"),
+    "C16": ("exploration",
+            "Hypothesis property tests and reference models for append/normalise/stager/compaction/rotation, multi-process multi-thread writer rounds with schedule-independent oracles, crash-point enumeration for compaction and rotation in forked children",
+            "append through all four entry points (nested/unicode/control chars/70-131 KB lines; direct or mux-captured): exactly one "
+            "LF-terminated JSON line per record; 1-4 processes x 1-4 threads of tagged writers incl. >64 KB lines: counts, completeness, "
+            "per-writer order; CI normalisation vs a docs-derived reference (identity when CI unset, only volatile fields of identity "
+            "streams change, idempotent, pure); stager: sorted drain, drain-flush-retry protocol over a ladder of byte limits through "
+            "the estimate boundaries, real batch driver with stubs: per-file sequence independent of the limit; compaction preserves "
+            "records, atomic under kills; rotation histories vs a reference model incl. pre-existing generations/gaps and kill/EIO at "
+            "every remove/replace step.",
+            "Trusted: harness/models/{lognorm,stager,rotate}.py; N = --backups as in help text, code and tests (the docstring's backups-1 arithmetic is contradictory).",
+            "DESIGN.md §3 C16"),
     "C17": ("exploration",
             "exhaustive breadth-first enumeration of scheduler histories to saturation against a reference model + Hypothesis rule-based machine + generated yield decisions + real turns under a scripted clock",
             "All selection/yield histories (clock advance, next_turn, on_yield, optional rotation) for 1-4 agents, allowance 1-3, aging "
@@ -147,6 +158,27 @@ CHECKS = {
             "idempotent, gate off leaves the state bit-identical; real orchestrator turns agree with the direct API.",
             "Trusted: harness/models/gel.py (update amounts follow code+unit tests where the m11 doc formula differs).",
             "DESIGN.md §3 C18"),
+    "C19": ("exploration",
+            "Hypothesis-generated turns (gate triples, budgets, both backends with recorded fixtures, fault scenarios at compute/write/telemetry/timeout) compared with a reflection-off twin world; purity properties for ids/timestamps",
+            "1-3 real turns per case on small worlds: allow_reflection x plan flag (state flag or Plan.reflection) x dry run x kill switch, "
+            "summary_tokens/ops_reflection/topk/embed, rule-based and LLM backends (fixture learned by a recording pre-pass; missing/"
+            "garbage/blank fixtures), faults: reflect raising 8 exception types, index.add raising, embedding adapter raising, telemetry "
+            "append failing at 3 sites, scripted perf_counter timeouts. Gate closed => reflect never called, index and t3_reflection.jsonl "
+            "untouched; open => <= ops entries, summaries within the token limit, nothing written on error/timeout; every turn: utterance, "
+            "canonical log deltas, stage objects, snapshots, store and version equal the reflection-off twin; ids/ts pure in (agent, "
+            "turn, slot, text).",
+            "Trusted: the reflection-off twin as oracle; ts compared only for equal logical now_ms.",
+            "DESIGN.md §3 C19"),
+    "C20": ("fault_enumeration",
+            "fault-site enumeration: every declared fail-soft site x 8 exception types x before/after mode x generated worlds, sampled site pairs/triples (Hypothesis), enumerated and generated boot-file contents, atheris on boot files; differential against an off/idle baseline",
+            "41 turn-level sites in 13 guard groups derived from the code's own guards (boot loader internals, GEL merge/split/promotion, "
+            "reflection compute/write/telemetry, LLM adapter construction, hybrid rerank, fusion/MMR, shadow trace, cache invalidation, "
+            "store apply, sidecar write, timestamp normalisation) are shadowed by raising spies; the turn must return and its "
+            "t1/t2/t4/apply/turn records and line must be byte-identical to the fault-free baseline with that subsystem off or idle "
+            "(built per turn). ~45 classes of snapshot-directory contents + generated ones: garbage must equal the empty-directory run, "
+            "any readable JSON object must at least let turns complete.",
+            "gel_observe/gel_tick, emit_trace as a whole, T1/T2 core, meta-filter, canonical appends and the snapshot body write are not declared fail-soft and are out of scope (stated in evidence).",
+            "DESIGN.md §3 C20"),
 }
 
 NOT_APPLICABLE = {
